@@ -501,3 +501,72 @@ Print Assumptions merge_chains_near.
 Print Assumptions merge_chains_single.
 Print Assumptions merge_chains_far_pairs.
 Print Assumptions merge_chains_near_pairs.
+
+(* ====================================================================================
+   Third pass: two statements of the property that are false of the code (findings C03-K7, C03-K8)
+   ==================================================================================== *)
+
+(* C03-K8 anchor_window_full_record.  A circular record of 4000 bases, cutoff 2000, rule "p0 and p1", gene 0
+   [100:200) with p0, gene 1 [3800:3900) with p1: 300 apart over the origin.  The cutoff window of either gene covers
+   the whole record, _extend_area_location returns one part, circular_origin stays 0, in_range measures 3600: no
+   anchoring gene at all, whereas evaluating the rule over the whole record with the ring distance makes both genes
+   anchors.  The same genes on a record of 4101 bases (window = two parts) are found. *)
+Lemma anchor_window_refuted : exists N gs hs rules,
+  apply_cluster_rules N true gs hs rules true = Ok [] /\
+  anchors_spec N true gs hs rules = Ok [(0, [0; 1])] /\
+  apply_cluster_rules (N + 101) true [(0, [mkPart 100 200 1]); (1, [mkPart 3901 4001 1])] hs rules true = Ok [(0, [0; 1])].
+Proof.
+  exists 4000, [(0, [mkPart 100 200 1]); (1, [mkPart 3800 3900 1])], [(0, [(0, 0)]); (1, [(1, 0)])],
+         [mkRule 2000 0 (C01.Model.Group false [C01.Model.IAnd [C01.Model.Single false 0; C01.Model.Single false 1]]) None []].
+  repeat split; vm_compute; reflexivity.
+Qed.
+
+(* C03-K7 merge_scan_adjacent_only.  Circular record of 10 kb, rule "p0 EXTENDERS p1", cutoff 1000: anchors
+   g0 [50:150), g1 [5000:5100), g2 [7900:8000), g4 [9000:9100), extender gene g3 [8450:8550).  g2 and g4 are exactly
+   the cutoff apart (two chains); both grow to g3; g4's cluster is merged with g0's over the origin; the result is never
+   compared with g2..g3: the pipeline returns two protoclusters of rule 0 whose cores overlap. *)
+Lemma merge_scan_adjacent_refuted : exists N gs hs rules protos p q,
+  pipeline N true gs hs rules true = Ok protos /\ In p protos /\ In q protos /\ p <> q /\
+  p_rule p = p_rule q /\ overlap (p_core p) (p_core q) = true.
+Proof.
+  exists 10000, [(0, [mkPart 50 150 1]); (1, [mkPart 5000 5100 1]); (2, [mkPart 7900 8000 1]); (3, [mkPart 8450 8550 1]);
+                 (4, [mkPart 9000 9100 1])],
+         [(0, [(0, 0)]); (1, [(0, 0)]); (2, [(0, 0)]); (3, [(1, 0)]); (4, [(0, 0)])],
+         [mkRule 1000 0 (C01.Model.Single false 0) (Some (C01.Model.Single false 1)) []].
+  eexists. exists (0, [mkPart 7900 8550 1], [mkPart 7900 8550 1]).
+  exists (0, [mkPart 8450 10000 1; mkPart 0 150 1], [mkPart 8450 10000 1; mkPart 0 150 1]).
+  split; [vm_compute; reflexivity|].
+  split; [repeat (first [left; reflexivity | right])|]. split; [repeat (first [left; reflexivity | right])|].
+  split; [discriminate|]. split; vm_compute; reflexivity.
+Qed.
+
+(* the same genes read from an origin 3000 bases further on (nothing near the origin): one protocluster g2..g0 *)
+Lemma merge_scan_rotated_ok :
+  pipeline 10000 true [(2, [mkPart 900 1000 1]); (3, [mkPart 1450 1550 1]); (4, [mkPart 2000 2100 1]); (0, [mkPart 3050 3150 1]);
+                       (1, [mkPart 8000 8100 1])]
+           [(0, [(0, 0)]); (1, [(0, 0)]); (2, [(0, 0)]); (3, [(1, 0)]); (4, [(0, 0)])]
+           [mkRule 1000 0 (C01.Model.Single false 0) (Some (C01.Model.Single false 1)) []] true
+  = Ok [(0, [mkPart 900 3150 1], [mkPart 900 3150 1]); (0, [mkPart 8000 8100 1], [mkPart 8000 8100 1])].
+Proof. vm_compute; reflexivity. Qed.
+Print Assumptions anchor_window_refuted.
+Print Assumptions merge_scan_adjacent_refuted.
+
+(* C03-K9 extender_overlapping_core_not_admitted.  Linear record of 2151 bases, rule "p0 or p2 EXTENDERS p1", cutoff 1000:
+   anchors g0 [0:100), g2 [600:2100), g3 [900:1000) form the core [0:2100); g4 [2001:2101) satisfies EXTENDERS and shares 99
+   bases with the core, yet it is not admitted: mark_extendable measures the distance from core_cdses[-1], the LAST core
+   gene in gene order (g3, 1001 > cutoff away), not from the core, and stops. *)
+Lemma extender_overlap_refuted : exists N gs hs rules protos p g,
+  pipeline N false gs hs rules true = Ok protos /\ In p protos /\ In g gs /\
+  can_extend hs (nth_rule rules (p_rule p)) g = true /\ overlap (snd g) (p_core p) = true /\ contains (p_core p) (snd g) = false.
+Proof.
+  exists 2151, [(0, [mkPart 0 100 (-1)]); (1, [mkPart 600 700 (-1)]); (2, [mkPart 600 2100 1]); (3, [mkPart 900 1000 (-1)]);
+                (4, [mkPart 2001 2101 (-1)])],
+         [(0, [(0, 0); (2, 0)]); (2, [(0, 0)]); (3, [(0, 0); (3, 0)]); (1, [(1, 0)]); (4, [(1, 0)])],
+         [mkRule 1000 1000 (C01.Model.Group false [C01.Model.ICond (C01.Model.Single false 0); C01.Model.ICond (C01.Model.Single false 2)])
+                 (Some (C01.Model.Single false 1)) []].
+  eexists. exists (0, [mkPart 0 2100 S_None], [mkPart 0 2151 1]), (4, [mkPart 2001 2101 (-1)]).
+  split; [vm_compute; reflexivity|].
+  split; [repeat (first [left; reflexivity | right])|]. split; [repeat (first [left; reflexivity | right])|].
+  repeat split; vm_compute; reflexivity.
+Qed.
+Print Assumptions extender_overlap_refuted.
